@@ -127,6 +127,11 @@ class Recorder:
         oracle decisions; distinct_sets: coverage-set names whose sizes are summed into
         distinct_nontrivial.
         """
+        if self.extra.get("call_forms_exercised"):
+            rule += ("; every public call the workload makes (constructors, add_*, Network.step, element-level init_vars/step, "
+                     "to_function) is written with a random number of leading arguments positional in the documented order and the "
+                     "rest by keyword (coverage.call_forms_exercised counts what was used), flow-equation names are strings built at "
+                     "run time, init_conditions are held in dict / defaultdict / OrderedDict / UserDict")
         keys = [evaluations_key] if isinstance(evaluations_key, str) else list(evaluations_key)
         evaluations = sum(self.counters.get(k, 0) for k in keys)
         distinct = sum(self.n_seen(s) for s in distinct_sets)
